@@ -18,7 +18,9 @@ MOD = 'contracts.c06'
 TRUSTED_BASE = ['pyvc interpreter / z3', 'spec/layout.py Table 10 conditions, spec/penalty.py ISO 7.8.3 scores',
                 'N4: the two float statements of mask_scores are extracted from the AST and evaluated by CPython for every dark count']
 ASSUMPTIONS = ['scores of candidates are integers below sys.maxsize (N1..N4 are bounded by 4*size^2*40)',
-               'N1/N2/N3 loops of mask_scores: deductive tier undecided in this build; covered by a labelled bounded differential (see evidence bounded_clauses)']
+               'N1/N2/N3: the ISO scores are specified as left-to-right folds (contracts/c06_scores.py); that the folds equal the declarative scores of spec/penalty.py is validated '
+               'exhaustively for lines of up to 14 (thorough: 16) modules and all 4x4 matrices, not proved for every length; induction schema for the no-occurrence lemma is trusted',
+               'bytearray.find axiomatised: least match at or after start, -1 if none']
 
 
 def tasks(tier, seed):
@@ -33,10 +35,15 @@ def tasks(tier, seed):
                        fuc=['segno.encoder.mask_scores (N4 statements)'], weight=lo))
     ts.append(Task('normalize_mask', MOD, 'task_normalize_mask', (), backend='ground', fuc=['segno.encoder.normalize_mask']))
     ts.append(Task('evaluate_mask', MOD, 'task_evaluate_mask', (), fuc=['segno.encoder.evaluate_mask']))
+    ts.append(Task('mask_scores_loops', 'contracts.c06_scores', 'task_mask_scores_loops', (), fuc=['segno.encoder.mask_scores', 'segno.encoder.mask_scores.n3_pattern_occurrences'], weight=60))
+    for lo, hi in ((1, 11), (12, 12), (13, 13), (14, 14)) + (((15, 15), (16, 16)) if tier != 'quick' else ()):
+        ts.append(Task('fold_spec[%d..%d]' % (lo, hi), 'contracts.c06_scores', 'task_fold_spec', (lo, hi), backend='ground', fuc=['spec: N1/N2/N3 folds'], weight=2 ** (hi - 8)))
     n = 6 if tier == 'quick' else 40
     for k in range(16):
         ts.append(Task('bounded_scores[%d]' % k, MOD, 'task_bounded_scores', (seed, k, n), backend='bounded',
                        fuc=['segno.encoder.mask_scores'], weight=50))
+    # the requested mask reaches every symbol of a sequence (multi-symbol and single-symbol route of encode_sequence)
+    ts.append(Task('sequence_options', 'contracts.c08', 'task_sequence_structure', ('alphanumeric', 'C06', True), fuc=['segno.encoder.encode_sequence'], weight=30))
     from . import glue, api
     ts += glue.glue_tasks('C06')
     ts.append(Task('api_wrappers', 'contracts.api', 'task_wrappers', ('C06',), backend='ground', fuc=api.FUC))
